@@ -77,4 +77,71 @@ func lazyBodyLine(t []string) string {
 	return fmt.Sprint(strings.Join(outs, " | "))
 }
 
-func init() { handlers["lazybody"] = lazyBodyLine }
+// lazyseq <cfg> <seed> <kind> <hexbody> <hexprog>... : the body is stored as x (computed / compjson / funcjson as in lazybody), then the programs
+// run in order on that VM; the last token "+runexpr" also evaluates the body through RunExpr after every program.
+// Output: one runOne line per program (and "rx=<ok value|err>" after it when +runexpr), joined by " | "
+func lazySeqLine(t []string) string {
+	if len(t) < 6 {
+		return "bad-op"
+	}
+	cfg, ok := parseCfg(t[1])
+	body, ok2 := unhx(t[4])
+	if !ok || !ok2 {
+		return "bad-op"
+	}
+	vm, ok := newVM(cfg, t[2])
+	if !ok {
+		return "bad-op"
+	}
+	switch t[3] {
+	case "computed":
+		vm.Attrs.Store("x", ds.NewComputedVal(body))
+	case "compjson", "funcjson":
+		doc := map[string]any{"t": 5, "v": map[string]any{"expr": body}}
+		if t[3] == "funcjson" {
+			doc = map[string]any{"t": 8, "v": map[string]any{"expr": body, "name": "x", "params": []string{}}}
+		}
+		b, _ := json.Marshal(doc)
+		v, err := ds.VMValueFromJSON(b)
+		if err != nil {
+			return "decode-err " + hx(err.Error())
+		}
+		vm.Attrs.Store("x", v)
+	case "none":
+	default:
+		return "bad-op"
+	}
+	progs := t[5:]
+	rx := false
+	if progs[len(progs)-1] == "+runexpr" {
+		rx = true
+		progs = progs[:len(progs)-1]
+	}
+	var outs []string
+	for _, h := range progs {
+		src, ok := unhx(h)
+		if !ok {
+			return "bad-op"
+		}
+		o := safely(func() string { return runOne(vm, src) })
+		if rx {
+			o += " rx=" + safely(func() string {
+				v, err := vm.RunExpr(body, true)
+				if err != nil {
+					return "err"
+				}
+				if v == nil {
+					return "okNIL"
+				}
+				return "ok" + canon(v)
+			})
+		}
+		outs = append(outs, o)
+	}
+	return strings.Join(outs, " | ")
+}
+
+func init() {
+	handlers["lazybody"] = lazyBodyLine
+	handlers["lazyseq"] = lazySeqLine
+}
